@@ -72,6 +72,8 @@ type Rec struct {
 	Hook func(ctx context.Context, where string)
 	// Extra lets a check intercept unknown ops; return handled=false to fall through.
 	Extra func(ctx context.Context, r *Rec, stmt int, op string, w wire.DataWriter, params []wire.Parameter) (handled bool, err error)
+	// ColNames, when set, names the columns (cycled) instead of a, b, c.
+	ColNames []string
 	// Retain receives values handed to callbacks, without copying (C18).
 	Retain func(kind string, s string, b []byte)
 }
@@ -180,6 +182,11 @@ func (r *Rec) ParseFn() wire.ParseFn {
 
 func (r *Rec) statement(i int, st Stmt, query string) *wire.PreparedStatement {
 	cols := TextColumns(st.NCols)
+	for i := range cols {
+		if len(r.ColNames) > 0 {
+			cols[i].Name = r.ColNames[i%len(r.ColNames)]
+		}
+	}
 	fn := func(ctx context.Context, w wire.DataWriter, params []wire.Parameter) (err error) {
 		ev := Ev{Kind: "stmt", Stmt: i, Query: st.Src}
 		for _, p := range params {
@@ -233,7 +240,13 @@ func (r *Rec) statement(i int, st Stmt, query string) *wire.PreparedStatement {
 			case op == "e":
 				opErr = w.Empty()
 			case strings.HasPrefix(op, "c="):
-				opErr = w.Complete(op[2:])
+				tag := op[2:]
+				if strings.HasPrefix(tag, "@") { // "@300" = a tag of 300 bytes
+					if n, err := strconv.Atoi(tag[1:]); err == nil {
+						tag = strings.Repeat("t", n)
+					}
+				}
+				opErr = w.Complete(tag)
 			case op == "w":
 				e.Written = w.Written()
 			case op == "p":
